@@ -24,7 +24,7 @@ type c20Up struct {
 	Text string `json:"text_hex"`
 }
 type c20In struct {
-	Kind int     `json:"kind"` // 0 TermWriter, 1 BufferedTerm (helpers.BuildVTerm(true)), 2 VirtualTerm, 3 TermWriter judged on a terminal with the DEC last-column flag
+	Kind int     `json:"kind"` // 0 TermWriter, 1 BufferedTerm (helpers.BuildVTerm(true)), 2 VirtualTerm, 3 TermWriter, histories aimed at the right margin (judged as 0)
 	Size int     `json:"size"` // VirtualTerm: NewVirtualTermEx(size, 10)
 	Trim bool    `json:"auto_trim"`
 	Cols int     `json:"cols"`
@@ -214,7 +214,7 @@ func c20Case(in c20In) Case {
 	// boundary classes
 	tagset := map[string]bool{}
 	tag := func(t string) { tagset[t] = true }
-	tag([]string{"kind=TermWriter", "kind=BufferedTerm", "kind=VirtualTerm", "kind=TermWriter(DEC margin)"}[in.Kind])
+	tag([]string{"kind=TermWriter", "kind=BufferedTerm", "kind=VirtualTerm", "kind=TermWriter(margin)"}[in.Kind])
 	if in.Trim {
 		tag("trim=on")
 	} else {
@@ -266,9 +266,9 @@ func c20Case(in c20In) Case {
 		if in.Trim && eff > in.Cols {
 			eff = in.Cols
 		}
-		if in.Kind == 3 && in.Cols >= 1 && eff == in.Cols {
-			// recorded finding: the erase after a text that fills the row blanks its last cell
-			tag("kf:C20-dec-margin")
+		if in.Cols >= 1 && eff == in.Cols {
+			// the row is filled to the last column (finding C20-dec-margin, repaired)
+			tag("emitted-text-fills-row")
 		}
 		if p, ok := lastVis[u.Line]; ok {
 			tag("rewrite")
@@ -303,7 +303,7 @@ func c20Case(in c20In) Case {
 		tag("does-not-fit(trim off)")
 	}
 	var tags []string
-	for _, t := range []string{"kind=TermWriter", "kind=TermWriter(DEC margin)", "kf:C20-dec-margin", "kind=BufferedTerm", "kind=VirtualTerm", "trim=on", "trim=off",
+	for _, t := range []string{"kind=TermWriter", "kind=TermWriter(margin)", "emitted-text-fills-row", "kind=BufferedTerm", "kind=VirtualTerm", "trim=on", "trim=off",
 		"cols<=0", "cols=1", "cols<=10", "cols<=80", "cols<=120", "in-theorem-domain", "does-not-fit(trim off)",
 		"text-not-well-formed", "sgr", "multi-byte", "empty-visible-text", "text=width", "text=width+1", "text>width",
 		"rewrite", "shrinking-rewrite", "jump-up", "gap", "jump-past-max-from-above", "same-line-again", "no-updates"} {
@@ -486,6 +486,12 @@ func c20Random(r *Rng) c20In {
 	bad := r.Chance(1, 10)
 	for _, l := range lines {
 		vis := c20Vis(r, in.Cols, fitAll || (in.Trim && r.Chance(1, 2)))
+		if in.Kind == 3 && r.Chance(2, 3) { // fill the row to the last column
+			vis = in.Cols
+			if in.Trim && r.Chance(1, 2) {
+				vis += r.Range(0, 5)
+			}
+		}
 		t := c20Text(r, vis, sgr, multi, bad)
 		in.Ups = append(in.Ups, c20Up{Line: l, Text: hex.EncodeToString([]byte(t))})
 	}
@@ -581,7 +587,7 @@ func main() {
 		Header: "From Coq Require Import List NArith ZArith String.\nFrom RareV Require Import Corr.C20Case.\nImport ListNotations.\nOpen Scope N_scope. Open Scope string_scope.\n",
 		Rule: "fixed part: every history of at most 2 (quick) / 3 (thorough) updates over lines {0,1,2} and texts {\"\", a, abc, bold ab} through TermWriter at (trim on, width 2) and (trim off, width 3); " +
 			"the trim on every text of length <= 4 (quick) / 5 (thorough) over {a, ESC, '[', '1', 'm'} at widths 1..3 (as VirtualTerm lines); the histories of the package's own tests. " +
-			"seeded part: 60% TermWriter (multiterm.New, os.Stdout redirected to a file, the output of every call recorded separately), 10% TermWriter judged on a reference terminal with the DEC last-column flag without the narrower-than-the-terminal guard (recorded finding C20-dec-margin: tagged when an emitted text is exactly as wide as the terminal), 20% BufferedTerm through helpers.BuildVTerm(true), 10% VirtualTerm (NewVirtualTermEx with initial size 0..5, WriteToOutput into a buffer, Get(-1..LineCount), LineCount); " +
+			"seeded part: 60% TermWriter (multiterm.New, os.Stdout redirected to a file, the output of every call recorded separately), 10% TermWriter with every text at least as wide as the terminal (finding C20-dec-margin, repaired: a row filled to the last column), 20% BufferedTerm through helpers.BuildVTerm(true), 10% VirtualTerm (NewVirtualTermEx with initial size 0..5, WriteToOutput into a buffer, Get(-1..LineCount), LineCount); " +
 			"widths 1..120 (weighted to 1..3, 4..12, 80) and occasionally 0/-1, AutoTrim on (60%) / off; 0..40 updates over at most 12 lines in five orders (top-to-bottom redraw, bottom-up, one line hammered, growing frontier with jumps back, random); " +
 			"texts with a chosen number of visible runes aimed at the width (0, width-1, width, width+1, 2*width, random), ASCII and multi-byte runes (2, 3 and 4 byte encodings, U+FFFD, U+10FFFF), SGR sequences with and without a trailing reset, and in 10% of the histories texts outside the theorem's domain (TAB, lone ESC, unterminated sequence, other CSI sequences, invalid UTF-8, C1 controls). " +
 			"The model's and the implementation's per-call outputs are interpreted by the reference terminal of Model/Term.v (with and without ONLCR, idealised and DEC right margin) and the screens compared after every call; the property's boolean form is evaluated on the implementation's output. " +
